@@ -19,7 +19,8 @@ def gen_case(rnd, tier: str, i: Any, **over: Any) -> Dict[str, Any]:
     n_steps = rnd.choice([0, 1, 1, 2, 2, 3, 3, 5])    # every rank carries the same step set
     files, truths = {}, {}
     for r in range(n_ranks):
-        p = gen_sim.random_params(rnd, tier, rank=r, first_step=first_step, avoid_k1=True, n_steps=n_steps)
+        p = gen_sim.random_params(rnd, tier, rank=r, first_step=first_step, avoid_k1=True, n_steps=n_steps, p_zero_launch=rnd.choice([0.0, 0.0, 0.2]),
+                                  nested_driver=rnd.random() < 0.35)
         p.update(over)
         tr, truth = gen_sim.gen_trace_with_truth(rnd, **p)
         files[f"rank{r}.json"] = tr
